@@ -310,6 +310,10 @@ func (c *compiler) compile() (WarriorData, error) {
 	return c.metadata, nil
 }
 
+// maxForPasses bounds the FOR expansion passes. Every pass expands one block
+// instance, so this limits the number of expansions, not the nesting depth.
+const maxForPasses = 1000
+
 func CompileWarrior(r io.Reader, config SimulatorConfig) (WarriorData, error) {
 	lexer := newLexer(r)
 	tokens, err := lexer.Tokens()
@@ -335,7 +339,7 @@ func CompileWarrior(r io.Reader, config SimulatorConfig) (WarriorData, error) {
 			break
 		}
 		depth++
-		if depth > 12 {
+		if depth > maxForPasses {
 			return WarriorData{}, fmt.Errorf("for loop depth exceeded")
 		}
 	}
